@@ -285,6 +285,11 @@ def run(tier):
             if mv is None:
                 continue
             reader_reports = [r for r in res["reports"] if r[3]]
+            if mv.startswith("ub ") and cls in ("valid", "trunc"):
+                # the model says the reader performs an undefined operation on a valid module or on a prefix of
+                # one: that is the property failing (independently of whether this run made it visible)
+                note_finding("model-ub-" + mv.split()[1] + "-on-" + ("valid-module" if cls == "valid" else "prefix"),
+                             "", data, opts, build, ao, res)
             if mv.startswith("ub "):
                 if not reader_reports and res["signal"] is None and "strcpy" not in str(res["reports"]):
                     nmis += 1
